@@ -83,3 +83,59 @@ package layer2
 //@   requires a != nil && lockstate(a.RWMutex) == 0
 //@   ensures result == (name in a.ips) && lockstate(a.RWMutex) == 0
 //@   modifies $held
+//@ func (*Announce).GetStatus
+//@   lockonly
+//@   requires a != nil && lockstate(a.RWMutex) == 0
+//@   ensures lockstate(a.RWMutex) == 0 && lockframe(a.RWMutex)
+//@   modifies $held
+//@ func (*Announce).GetInterfaces
+//@   lockonly
+//@   requires a != nil && lockstate(a.RWMutex) == 0
+//@   ensures lockstate(a.RWMutex) == 0 && lockframe(a.RWMutex)
+//@   modifies $held
+//@ func (*Announce).gratuitous
+//@   lockonly
+//@   requires a != nil && lockstate(a.RWMutex) == 0
+//@   ensures lockstate(a.RWMutex) == 0 && lockframe(a.RWMutex)
+//@   modifies $held
+//@ func (*Announce).updateInterfaces
+//@   lockonly
+//@   requires a != nil && lockstate(a.RWMutex) == 0
+//@   ensures lockstate(a.RWMutex) == 0 && lockframe(a.RWMutex)
+//@   modifies $held
+//@ func (*Announce).spamLoop
+//@   lockonly
+//@   requires a != nil && lockstate(a.RWMutex) == 0
+//@ func (*Announce).interfaceScan
+//@   lockonly
+//@   requires a != nil && lockstate(a.RWMutex) == 0
+// the constructor writes the guarded fields of an object nobody else can reach yet
+//@ func New
+//@   lockonly
+
+// ---- the responders: a reply is sent only to a request addressed to us for an announced address ----
+// the decision callback of a responder (bound to Announce.shouldAnnounce by updateInterfaces) reads only
+//@ func field:go.universe.tf/metallb/internal/layer2.arpResponder.announce
+//@   trusted
+//@   modifies nothing
+//@ func field:go.universe.tf/metallb/internal/layer2.ndpResponder.announce
+//@   trusted
+//@   modifies nothing
+// prometheus counters: no effect on modelled state
+//@ func (*metrics).GotRequest
+//@   trusted
+//@   modifies nothing
+//@ func (*metrics).SentResponse
+//@   trusted
+//@   modifies nothing
+
+//@ func (*arpResponder).processRequest
+//@   abstract
+//@   assert before Reply: [announced] reason == dropReasonNone
+//@   assert before Reply: [isRequest] pkt.Operation == arp.OperationRequest
+//@   assert before Reply: [addressed] bytes.Equal(eth.Destination, ethernet.Broadcast) || bytes.Equal(eth.Destination, a.hardwareAddr)
+//@   assert before Reply: [forTarget] arg1 == pkt && sameSlice(arg3, pkt.TargetIP)
+
+//@ func (*ndpResponder).processRequest
+//@   abstract
+//@   assert before advertise: [announced] reason == dropReasonNone
